@@ -292,12 +292,22 @@ def _aggregates(ctx):
     labels = index.find_method(node_cls, 'add_labels')
     ctx.require(labels is not None, 'Node.add_labels')
     lgraph = ctx.cfg(labels)
+    lwalk = K.upward_walk(lgraph)
+    lrecv = '%s.labels' % (lwalk[0] if lwalk else 'self')
     upd = K.nodes_calling(lgraph, lambda c: K.is_meth(c, 'update', 'add')
-                          and K.recv_text(c) == 'self.labels')
+                          and K.recv_text(c) == lrecv)
     ctx.ob('C02.1', labels, upd[0][0] if upd else None, bool(upd),
            'labels are combined with set union (never narrowed)',
            construct='self.labels.update(labels)')
-    if upd:
+    if upd and lwalk:
+        okw, why = K.walk_covers(
+            lgraph, lwalk, lambda n: any(n is u for u, _c in upd))
+        ctx.ob('C02.1', labels, lwalk[1], okw,
+               'labels are added at every level from this node to the root '
+               '(iterative walk): %s' % why,
+               construct='%s => parent.%s' % (upd[0][0].text(70),
+                                              labels.name))
+    elif upd:
         _parent_call_after(ctx, labels, lgraph, upd[0][0], labels.name,
                            'self.labels')
     narrowing = []
